@@ -68,9 +68,12 @@ theorem strict_iff_relaxed_laxFree (G : Gram) : ∀ t, wf true G t = (wf false G
       cases e <;> simp [Tree.isNil, wf, laxFree] <;> grind
   | pre p x ih =>
     simp only [wf, laxFree]
-    cases G.pre p with
-    | none => simp
-    | some j => simp only [ih]; grind
+    cases hu : G.ulk p with
+    | true => simp only [ih]; grind
+    | false =>
+      cases G.pre p with
+      | none => simp
+      | some j => simp only [ih]; grind
   | bin o l r ihl ihr =>
     simp only [wf, laxFree]
     cases hg : G.led o with
@@ -121,7 +124,7 @@ theorem pratt_complete (T : Tbl) (G : Gram) (bp : Nat → Nat) (K : Nat) (hc : C
     parse T t.yield = .ok t := by
   simp only [derivable, Bool.and_eq_true, decide_eq_true_eq] at hd
   have h := complete_all hc hpos (need t) t (Nat.le_refl _) hd.2 hg 0 0 (Nat.zero_le _)
-    (adm_zero hc hpos) [] (by simp [headLe]) (2 * t.yield.length + 2) (by have := need_le_yield t; omega)
+    (adm_zero hc hpos) (Nat.zero_le _) [] (by simp [headLe]) (2 * t.yield.length + 2) (by have := need_le_yield t; omega)
   simp only [List.append_nil] at h
   simp [parse, h]
 
